@@ -43,6 +43,11 @@ pub struct E2Cfg {
     /// the seed list is shared: every server's own advertised address is in it as well
     #[serde(default)]
     pub self_in_seeds: bool,
+    /// tombstone grace period of the servers; 0 = practically infinite (the ledger oracles of
+    /// C02/C03 then need no taint classification and are on; with a real grace period they are off
+    /// and the owner-side collection oracle of C06 is on)
+    #[serde(default)]
+    pub tomb_grace_ms: u64,
 }
 
 fn listen_addr(cfg: &E2Cfg, i: usize) -> SocketAddr {
@@ -417,6 +422,8 @@ struct Run {
     /// simulated name table and, per server, its history: (since ms, resolution or failure)
     dns_table: HashMap<String, Vec<SocketAddr>>,
     dns_hist: Vec<Vec<(u64, Option<Vec<SocketAddr>>)>>,
+    /// per server: key -> (version, time) of the owner's latest deletion or TTL mark
+    marks: Vec<HashMap<String, (u64, u64)>>,
 }
 
 fn kind_of(st: &chitchat::DeletionStatus) -> u8 {
@@ -428,7 +435,7 @@ fn kind_of(st: &chitchat::DeletionStatus) -> u8 {
 }
 
 fn viol(step: usize, code: &str, detail: String) -> Violation {
-    let prop = if code.starts_with("C17") { "C17" } else if code.starts_with("C01") { "C01" } else if code.starts_with("C02") { "C02" } else if code.starts_with("C03") { "C03" } else { "C19" };
+    let prop = if code.starts_with("C06") { "C06" } else if code.starts_with("C17") { "C17" } else if code.starts_with("C01") { "C01" } else if code.starts_with("C02") { "C02" } else if code.starts_with("C03") { "C03" } else { "C19" };
     Violation { property: prop.into(), code: code.into(), step, detail, finding: String::new() }
 }
 
@@ -488,7 +495,7 @@ impl Run {
                     .collect(),
                 failure_detector_config: FailureDetectorConfig { dead_node_grace_period: Duration::from_millis(cfg.dead_grace_ms), ..Default::default() },
                 // no tombstone GC in E2 runs: the ledger oracles below then need no taint classification
-                marked_for_deletion_grace_period: Duration::from_secs(10_000_000),
+                marked_for_deletion_grace_period: if cfg.tomb_grace_ms > 0 { Duration::from_millis(cfg.tomb_grace_ms) } else { Duration::from_secs(10_000_000) },
                 catchup_callback: None,
                 extra_liveness_predicate: Some(Box::new(move |_: &NodeState| {
                     if f2.load(Ordering::SeqCst) {
@@ -522,7 +529,7 @@ impl Run {
                 ledger[i].insert(("k".to_string(), 1u64), (format!("v{i}"), 0u8));
                 latest[i].insert("k".to_string(), 1u64);
             }
-            Run { cfg, net, srv, step: 0, log: Vec::new(), keep_log, nontrivial: false, gossip_cmds: HashMap::new(), ledger, latest, dns_table, dns_hist }
+            Run { cfg, net, srv, step: 0, log: Vec::new(), keep_log, nontrivial: false, gossip_cmds: HashMap::new(), ledger, latest, dns_table, dns_hist, marks: vec![HashMap::new(); n] }
         }
     }
 
@@ -1063,6 +1070,7 @@ impl Run {
                     self.seed_check(i).await?;
                 }
                 self.inspect().await?;
+                self.collection_check().await?;
                 self.check_copies().await
             }
             E2Cmd::Quiesce { rounds } => {
@@ -1127,16 +1135,72 @@ impl Run {
         match r {
             Err(_) => Err(viol(self.step, "C19.deadlock", format!("with_chitchat (write) on server {i} did not return"))),
             Ok(Some((v, ver, kind))) => {
-                self.ledger[i].insert((key.to_string(), ver), (v, kind));
+                let fresh = self.ledger[i].insert((key.to_string(), ver), (v, kind)).is_none();
                 self.latest[i].insert(key.to_string(), ver);
+                if kind == 0 {
+                    self.marks[i].remove(key);
+                } else if fresh {
+                    let now = self.now();
+                    self.marks[i].insert(key.to_string(), (ver, now));
+                }
                 Ok(())
             }
             Ok(None) => Ok(()),
         }
     }
 
+    /// C06 through the real server loop: an entry the owner marked for deletion (delete, TTL) is
+    /// gone from the owner's own state once the grace period and a few gossip rounds have passed
+    /// (the loop runs the collection at the start of every round).
+    async fn collection_check(&mut self) -> Result<(), Violation> {
+        let grace = self.cfg.tomb_grace_ms;
+        if grace == 0 {
+            return Ok(());
+        }
+        let now = self.now();
+        let interval = self.cfg.interval_ms;
+        for i in 0..self.srv.len() {
+            if self.srv[i].ended || self.srv[i].handle.is_none() {
+                continue;
+            }
+            let excused = self.excused_until(i);
+            if excused == u64::MAX {
+                continue;
+            }
+            let due: Vec<(String, u64)> = self.marks[i].iter().filter(|(_, (_, t))| now >= (*t).max(excused) + grace + 3 * interval + 5).map(|(k, (ver, _))| (k.clone(), *ver)).collect();
+            if due.is_empty() {
+                continue;
+            }
+            let h = self.srv[i].handle.as_ref().unwrap();
+            let Ok(held) = tokio::time::timeout(
+                Duration::from_millis(interval * 10),
+                h.with_chitchat(|c| c.self_node_state().key_values_including_deleted().map(|(k, v)| (k.to_string(), v.version, kind_of(&v.status))).collect::<Vec<_>>()),
+            )
+            .await
+            else {
+                continue;
+            };
+            self.net.lock().unwrap().stats.inc("collection_checks");
+            self.nontrivial = true;
+            for (k, ver) in due {
+                if held.iter().any(|(hk, hv, kind)| *hk == k && *hv == ver && *kind != 0) {
+                    return Err(viol(
+                        self.step,
+                        "C06.e2_not_collected",
+                        format!("server {i} at {now} ms still holds its own entry {k:?}@{ver}, marked for deletion more than the grace period ({grace} ms) and three gossip rounds ago"),
+                    ));
+                }
+                self.net.lock().unwrap().stats.inc("probe_owner_entry_collected_by_the_server_loop");
+            }
+        }
+        Ok(())
+    }
+
     /// C02 / C03 at an inspection point, through the real server loops (no tombstone GC here).
     async fn check_copies(&mut self) -> Result<(), Violation> {
+        if self.cfg.tomb_grace_ms > 0 {
+            return Ok(());
+        }
         let n = self.srv.len();
         // copies first, owners afterwards: owners only move forward in between
         let mut copies: Vec<Option<Vec<(usize, u64, u64, u64, Vec<(String, String, u64, u8)>)>>> = Vec::new();
@@ -1268,6 +1332,7 @@ fn gen_cmds(seed: u64) -> (E2Cfg, Vec<E2Cmd>) {
         raw_udp: false,
         split_addr: false,
         self_in_seeds: false,
+        tomb_grace_ms: 0,
     };
     // name resolution runs draw from their own stream, so the other runs keep their commands
     let mut r2 = Rng::new(seed ^ 0x5EED_D45_0000_0001);
@@ -1281,6 +1346,9 @@ fn gen_cmds(seed: u64) -> (E2Cfg, Vec<E2Cmd>) {
     }
     cfg.raw_udp = raw_udp;
     cfg.split_addr = r2.chance(0.4);
+    if r2.chance(0.25) {
+        cfg.tomb_grace_ms = *r2.pick(&[2 * cfg.interval_ms, 10 * cfg.interval_ms, 30_000]);
+    }
     cfg.self_in_seeds = r2.chance(0.4);
     let cfg = cfg;
     let mut cmds = Vec::new();
@@ -1361,6 +1429,14 @@ fn gen_cmds(seed: u64) -> (E2Cfg, Vec<E2Cmd>) {
             c
         };
         cmds.push(c);
+        if cfg.tomb_grace_ms > 0 && r2.chance(0.15) {
+            // a deletion or TTL mark, the grace period, a few rounds, an inspection
+            let i = r2.usize_below(n);
+            let key = if r2.chance(0.5) { "k".to_string() } else { format!("w{}", r2.below(4)) };
+            cmds.push(E2Cmd::WriteOp { i, key, value: format!("t{}", r2.below(1000)), op: r2.below(3) as u8 });
+            cmds.push(E2Cmd::Advance { ms: cfg.tomb_grace_ms + 4 * cfg.interval_ms });
+            cmds.push(E2Cmd::Inspect);
+        }
     }
     if dns_on {
         cmds.push(E2Cmd::Advance { ms: *r2.pick(&[61_000u64, 301_000, 301_000, 361_000]) });
